@@ -252,7 +252,8 @@ pub(crate) fn access_with_symbol<Data: GarnishData>(
                 GarnishDataType::List => {
                     // in order to limit to slice range need to check items manually
                     // can't push, in case any of the items are a Link or Slice
-                    let mut i = start;
+                    // positions before the first item hold nothing, no need to walk them
+                    let mut i = if start < Data::Number::zero() { Data::Number::zero() } else { start };
                     let mut item: Option<Data::Size> = None;
                     let length = <Data as GarnishData>::DataFactory::size_to_number(this.get_list_len(value.clone())?);
 
